@@ -440,6 +440,15 @@ theorem truncation_certified (O : Oracle) (M : List Cps) (c : Cut) (h : c.ok = t
     (sheetLoop O M {} c.toks).rules = c.predict O M :=
   Cut.predict_sound O M c h
 
+/-- the certificate search of the driver (`findCut`) is faithful: for every non-empty token list it returns a
+division of exactly that list — so on every input the only thing that decides whether the prediction applies
+is the verified check `Cut.ok`; the search itself needs no trust. -/
+theorem certificate_search_faithful (O : Oracle) (M : List Cps) (ts : List Tok) (h : ts ≠ []) :
+    ∃ c, findCut ts = some c ∧ c.toks = ts ∧
+      (c.ok = true → (sheetLoop O M {} ts).rules = c.predict O M) := by
+  obtain ⟨c, hc, ht⟩ := findCut_toks ts h
+  exact ⟨c, hc, ht, fun hok => ht ▸ Cut.predict_sound O M c hok⟩
+
 -- non-vacuity: the tokens of `a{} @media print{b{} @media print{c{d:e;f` get a certificate of shape
 -- media > media > style with one complete unit at each level, and it passes the check
 example : ((findCut [Ex.idt "a", Ex.lbrace, Ex.rbrace, ⟨.mediaSym, cps "@media", 0⟩, Ex.sp, Ex.idt "print", Ex.lbrace,
